@@ -117,7 +117,8 @@ def gen(rng, tier):
             "dbfn": rng.choice(["a.db", "a.db", "a.db", ":memory:"]), "form": rng.choice(["path", "path", "string", "gz"]),
             "end": rng.choice(["exit", "crash", "crash"]), "directives": rng.choice([[], [], ["gff-version 3"]]),
             "short_writes": rng.random() < 0.5, "interleave": rng.random() < 0.5, "isched": [rng.randrange(2) for _ in range(rng.randint(2, 12))],
-            "update_other_dialect": rng.random() < 0.35}
+            "update_other_dialect": rng.random() < 0.35,
+            "crashed_first_attempt": rng.choice([None, None, None, {"frac": rng.random(), "mode": rng.choice(["crash", "crash", "torn", "cancel", "error"])}])}
 
 
 def check_dump(case, lines, d, V, where, check_lines=True):
@@ -174,6 +175,26 @@ def run(case):
         kw = dict(okw, checklines=case["checklines"], merge_strategy="create_unique")
         if d_["fam"] == "gtf":
             kw.update({"disable_infer_genes": True, "disable_infer_transcripts": True})
+        cfa = case.get("crashed_first_attempt")
+        if cfa and case["dbfn"] != ":memory:":
+            # history: an import of the same input to the same path dies / fails part-way, then the import is run again with
+            # force=True - what the first attempt left behind (partial database, journal, temp files) must not matter
+            probe_n = w.node()
+            pr = w.call(probe_n, {"op": "create", "h": "p", "db": "probe.db", "data": dict(spec, name="probe.gff"), "kw": kw})
+            probe_n.close()
+            if pr["ok"] and pr["points"] > 3:
+                v_n = w.node()
+                flt = {"at": min(pr["points"] - 1, int(cfa["frac"] * pr["points"])), "mode": cfa["mode"]}
+                if cfa["mode"] == "torn":
+                    flt = {"kind": "fs.write", "nth": 0, "mode": "torn"}
+                try:
+                    fr_ = w.call(v_n, {"op": "create", "h": "h", "db": case["dbfn"], "data": dict(spec, name="first.gff"), "kw": kw, "faults": [flt]})
+                    if not fr_["ok"]:
+                        probes["first_attempt_failed_then_forced_reimport"] = 1
+                    v_n.close()
+                except NodeDied:
+                    probes["first_attempt_crashed_then_forced_reimport"] = 1
+                kw = dict(kw, force=True)
         creq = {"op": "create", "h": "h", "db": case["dbfn"], "data": spec, "kw": kw}
         if case["form"] == "string" and case.get("short_writes"):
             creq["short_writes"] = True  # buggify: os.write() on world files performs legal short writes
